@@ -21,7 +21,7 @@
   `Err.internal "unsupported"` marks Python behaviour that is deliberately NOT modelled (objects that are
   not DSL expressions flowing through untyped code, e.g. `One() * A`); the harness never generates it.
   This file is self-contained on purpose (the `expr` family models the same constructors in
-  Y0.Model.Dsl for C10/C11/C13); see the reconciliation note in Y0/Props/C12.lean.
+  Y0.Model.Dsl for C10/C11/C13); `C12.productSafe_agrees` reconciles the two models of `Product.safe`.
   Core Lean only.
 -/
 import Y0.Model.PyParse
